@@ -19,7 +19,7 @@ RULE = ('seeded connect() histories: 0..4 keys drawn from four fixture key pairs
         'SHA-1 digest, pure-integer check against the fixture public numbers) and the host packet log is compared with a reference handshake model. '
         'non-trivial = >= 2 keys offered and >= 1 signature rejected; distinct = event-log digests')
 ASSUMPTIONS = ['fixture keys were generated with `cryptography`, independently of adb_shell.auth.keygen', 'auth_timeout_s=None with a silent device is excluded (documented wait-forever)']
-EXPECT_PROBES = {'all': ['c05_pubkey_offered', 'c05_key_accepted', 'c05_bad_challenge', 'c05_no_keys', 'c05_reconnect', 'c05_callback', 'c05_silent_pubkey', 'stray_before_answer',
+EXPECT_PROBES = {'all': ['c05_pubkey_offered', 'c05_key_accepted', 'c05_bad_challenge', 'c05_no_keys', 'c05_reconnect', 'c05_callback', 'c05_silent_pubkey', 'auth_rechallenge_after_pubkey', 'stray_before_answer',
                          'c05_signer_pycryptodome', 'c05_signer_cryptography', 'c05_signer_pythonrsa']}
 OWN = ('first-packet', 'signature-invalid', 'signature-order', 'signature-count', 'packet-after-cnxn', 'pubkey-early', 'pubkey-wrong', 'pubkey-missing', 'callback-count',
        'wrong-result', 'wrong-exception', 'missing-exception', 'unexpected-exception', 'timeout-instead-of-result', 'available-wrong', 'maxdata-wrong', 'auth-wait-short',
@@ -50,7 +50,7 @@ def generate(seed, tier):
         g.r.shuffle(idxs)
         keys = [[idxs[i], g.pick(SIGNERS)] for i in range(nk)]
         mode = g.int(0, 9)
-        a = {'pubkey': g.pick(['accept', 'accept', 'late', 'silent']), 'think_s': g.pick([0.0, 0.5, 3.0]), 'late_s': g.pick([0.5, 2.0, 20.0]), 'accept_key': None}
+        a = {'pubkey': g.pick(['accept', 'accept', 'late', 'silent', 'rechallenge_accept', 'rechallenge_silent']), 'think_s': g.pick([0.0, 0.5, 3.0]), 'late_s': g.pick([0.5, 2.0, 20.0]), 'accept_key': None}
         if mode == 0:
             a = None        # no authentication required
         elif mode <= 5 and nk:
@@ -101,6 +101,9 @@ def model_connect(op, a):
         return ('exc', ('RuntimeError',), n, False, True)
     pol = a.get('pubkey', 'accept')
     at = op.get('at', 10.0)
+    if pol.startswith('rechallenge'):
+        # another AUTH(TOKEN) after the public key changes nothing: only the final CNXN counts
+        pol = 'accept' if pol == 'rechallenge_accept' else 'silent'
     if pol == 'accept':
         return ('ok', n, True, bool(cb)) if a.get('think_s', 0.0) < at else ('exc', O.TIMEOUT_EXCS, n, True, bool(cb))
     if pol == 'late':
@@ -207,7 +210,7 @@ def evaluate(case, tapes=None):
                     ok = False
                 if not ok or blob != want_blob or not blob.endswith(b'\0'):
                     probs.append(O.P('pubkey-wrong', '%s: AUTH(RSAPUBLICKEY) payload is not the first key\'s public key + NUL (%d bytes, decodes to first key: %r)' % (where, len(blob), ok)))
-                if a.get('pubkey') == 'silent' or (a.get('pubkey') == 'late' and a.get('late_s', 1.0) >= op.get('at', 10.0)):
+                if a.get('pubkey') in ('silent', 'rechallenge_silent') or (a.get('pubkey') == 'late' and a.get('late_s', 1.0) >= op.get('at', 10.0)):
                     pr['c05_silent_pubkey'] = 1
                     if not rec['ok'] and sess.get('pubkey_time') is not None and rec['t1'] - sess['pubkey_time'] < op.get('at', 10.0) - 1e-6:
                         probs.append(O.P('auth-wait-short', '%s: gave up %.3f s after offering the public key; auth_timeout_s is %r' % (where, rec['t1'] - sess['pubkey_time'], op.get('at'))))
